@@ -9,6 +9,13 @@ COMMON_NOTE = ("Trusted: Coq 8.16.1 kernel and its VM (vm_compute; no native_com
                "(virtual clock, scheduler, canonicalisation, case printer). ")
 # id -> (text, note, technique, design_ref)
 CLAIMED = {
+ "C12": ("The unchanged code violates the property in two recorded ways (F20 tag-set TTL follows the latest add; F21 unregistered tags are not pruned): both are "
+         "theorems `..._refuted` about the faithful model (witness evaluated in the kernel) and are replayed on the real code on every run, where they print "
+         "KNOWN-FINDING. Proved for all states: a tagged write joins every named tag set for any TTL; delete_tags leaves no member of the tag's live set readable. "
+         "The model (tags.py + Memory set commands + on-remove callback with lazy expiry made deterministic by probing) is compared with the real facade step by "
+         "step; any oracle failure not containing a recorded situation (Run.C12.excl_f20 / excl_f21 on the shrunk history) is reported as a violation.",
+         "The invariant-based theorem 'complete whenever no tagged write shortens a set below a live member' is stated in DESIGN.md but not proved (partial).",
+         "Coq proof (partial + refutation witnesses) + differential correspondence + known-finding predicates", "3/C12"),
  "C15": ("Theorems over the Gallina image of rate.py, rate_slide.py, Memory.slice_incr and circuit_breaker.py on the TTL-map spec, each as an invariant plus a "
          "one-call statement: rate_limit runs a call only if fewer than `limit` ran in the counter's current life, whose deadline is period after the first call / ttl "
          "after the first rejection; slice_rate_limit (strictly increasing instants) never runs a call that has `limit` executed calls in the period before it; the "
